@@ -69,7 +69,16 @@ Proof. split; vm_compute; reflexivity. Qed.
 Definition C06_full_statement (text model : Type) (compile : text -> option model) (unroll_by_hand : text -> text) : Prop :=
   forall t, compile (unroll_by_hand t) = compile t.
 
+(* set functions: the union of two arrays of numbers holds every value of either exactly once *)
+Theorem C06_union_is_a_set :
+  forall env a b la lb,
+    ieval env a = Some (DList la) -> ieval env b = Some (DList lb) -> all_nums la = true -> all_nums lb = true ->
+    exists u, ieval env (ISet SUnion a b) = Some (DList u) /\ nums_distinct u /\
+      forall x, num_mem x u = (num_mem x la || num_mem x lb)%bool.
+Proof. exact union_is_a_set. Qed.
+
 Print Assumptions C06_range_exact.
+Print Assumptions C06_union_is_a_set.
 Print Assumptions C06_nested_iteration_is_lexicographic.
 Print Assumptions C06_sum_block_partial.
 Print Assumptions C06_avg_denotes.
